@@ -217,10 +217,14 @@ pub fn check_mix(case: &MixCase, stats: &mut Stats) -> CaseResult {
     for f in &case.frames {
         match ref_reply::<OptParams, ErrA>(&f.0) {
             vcommon::rx::Expect::Exactly(o) => want.push(o),
-            vcommon::rx::Expect::DecodeErrOr(o) => {
-                // either outcome is admitted for non-object documents: take what was observed
+            e @ (vcommon::rx::Expect::DecodeErrOr(_) | vcommon::rx::Expect::NonObjectReply(_)) => {
+                // several outcomes are admitted for non-object documents: take what was observed
+                // if it is one of them
                 let seen = got.get(want.len()).cloned();
-                want.push(if seen.as_ref() == Some(&o) { o } else { Outcome::DecodeErr });
+                want.push(match seen {
+                    Some(s) if e.admits(&s) => s,
+                    _ => Outcome::DecodeErr,
+                });
             }
         }
     }
